@@ -1,6 +1,6 @@
 from .. import facts
 from ..common import Report, finish
-from ..rules import c08, carry
+from ..rules import c08, carry, complete, c15
 
 RULE = ("(a) every write of a montgomery_form field (aggregate, store, &mut hand-out) of MontyForm / ConstMontyForm / "
         "BoxedMontyForm takes its value from a reducing producer, another form's representative, a select of such, a "
@@ -8,7 +8,8 @@ RULE = ("(a) every write of a montgomery_form field (aggregate, store, &mut hand
         "boxed almost-Montgomery routines (AMM(x,y) -> min+1, AMM(x,x) -> 1, AMM(x,1) -> 0, conditional subtraction -> "
         "-1) reaches level 0 at every form store and at every routine documented fully reduced; (c) from_const_params "
         "copies each field from the constant of the same name; (d) inside src/modular/** the carry/borrow returned by "
-        "adc/sbb/mac-family calls is never dropped")
+        "adc/sbb/mac-family calls is never dropped; (e) operand completeness: the result of every Montgomery-form operation "
+        "(C08) / exponentiation and linear-combination routine (C09) depends on every operand (base and exponent)")
 
 
 def run(tier, t0, prop="C08"):
@@ -20,6 +21,17 @@ def run(tier, t0, prop="C08"):
             c08.run_c(f, rep, cfg)
         c08.run_b(f, rep, cfg)
         carry.run(f, rep, cfg)
+        if prop == "C09":
+            complete.run(f, rep, cfg, lambda b: (b.get("name") or "").startswith(("pow", "multi_exponentiate", "lincomb")),
+                         "c09.complete", "exponentiation_routines", what="exponentiation / linear combination",
+                         skip_param=lambda b, p, ty, nm: ty in ("bool", "u32", "usize"))
+        else:
+            complete.run(f, rep, cfg, lambda b: (c15.family(b.get("name")) in ("add", "sub", "neg", "mul", "square", "double",
+                                                                                "retrieve", "inv", "div_by_2") or
+                                                 (b.get("name") or "") in ("new", "retrieve", "as_montgomery")) and
+                         "modular::" in ((b.get("impl_self") or "") + b["id"]) and "MontyForm" in (b.get("impl_self") or ""),
+                         "c08.complete", "montgomery_operations", what="Montgomery-form operation",
+                         skip_param=lambda b, p, ty, nm: ty in ("bool", "u32", "usize"))
     stale = {}
     for s in rep.stale:
         stale.setdefault(s["key"], set()).add(s["config"])
@@ -30,6 +42,7 @@ def run(tier, t0, prop="C08"):
     rep.floor("reduction_level_obligations", 20)
     rep.floor("carry_returning_calls_in_modular", 20)
     rep.floor("boxed_monty_bodies_interpreted", 40)
+    rep.floor("exponentiation_routines" if prop == "C09" else "montgomery_operations", 20)
     return finish(rep, tier, t0,
                   explanation="who-may-write analysis of the Montgomery representative in all three forms and an abstract "
                               "interpretation of reduction levels through the boxed almost-Montgomery multiplication, "
